@@ -293,8 +293,14 @@ func (o *ovsdbClient) connect(ctx context.Context, reconnect bool) error {
 				continue
 			}
 
-			// Restart all monitors; each monitor will handle purging
-			// the cache if necessary
+			// With more than one monitor the cache has to be purged, once,
+			// before any of them is restarted; a single monitor will handle
+			// purging the cache if necessary
+			if len(db.monitors) > 1 {
+				db.cache.Purge(db.model)
+			}
+
+			// Restart all monitors
 			for id, request := range db.monitors {
 				err := o.monitor(ctx, MonitorCookie{DatabaseName: dbName, ID: id}, true, request)
 				if err != nil {
@@ -1073,8 +1079,10 @@ func (o *ovsdbClient) monitor(ctx context.Context, cookie MonitorCookie, reconne
 	// MonitorCondSince one, whose LastTransactionID was known to the
 	// server. In this case the reply contains only updates to the existing
 	// cache data, while otherwise it includes complete DB data so we must
-	// purge to get rid of old rows.
-	if reconnecting && (len(db.monitors) > 1 || !lastTransactionFound) {
+	// purge to get rid of old rows. With more than one monitor the cache was
+	// purged before restarting them, purging here would drop what the
+	// monitors restarted so far have populated.
+	if reconnecting && len(db.monitors) == 1 && !lastTransactionFound {
 		db.cache.Purge(db.model)
 	}
 
